@@ -88,3 +88,12 @@ C("C17", "exploration",
   "outside the band, same random script -> identical basis and waveform, different stream -> different. Open finding K1 (Nyquist bin half weight) "
   "is recognised by its exact residual signature.",
   "distribution claims reduced to exact statements about the map from uniform variates; FFT noise compared at sample times", "DESIGN.md §4 C17")
+C("C07", "exploration",
+  "deviation-bounded exhaustive lattice (every coordinate alone, quick; every pair of coordinates as a full product, thorough) on dyadic time grids where the scaling laws are exact",
+  "For ARZ, AVZ and ZHS: around a base point, energy x (em,had) fractions (incl. zero energy) x 23 viewing angles (theta_c +- ladder, mirrored "
+  "negative angles, 0, pi/2, pi) x 3 distances x 4 vertex depths x N in {256,257,1024} x dt in {2^-34,2^-36} x grid offsets x shower times are "
+  "explored with deviation bound 1 (quick) / 2 (thorough); at every point: finite, right length, field*R identical for all R, v(-theta)=v(theta), "
+  "unchanged under joint shifts of grid and t0 (up to 2^24 samples), moved by k samples when t0 moves by k samples, all-zero for zero energy. "
+  "Angle ladders: on-cone peak maximal and non-increasing on both sides; EM on-cone peak/E constant over 1e5..1e11 GeV.",
+  "monotone-amplitude claim only on the declared ladder with dt<=2^-34 s, E>=1e9 GeV; tolerance 1e-10 of the peak (FFT convolution noise)",
+  "DESIGN.md §4 C07")
